@@ -135,7 +135,7 @@ def method_rules(methods, selfname='self'):
             (r'(\b[A-Za-z_]\w*)->%s\(\s*\)' % e, r'%s(\1)' % cname, None),
             (r'(\b[A-Za-z_]\w*)->%s\(' % e, r'%s(\1, ' % cname, None),
             (r'(?<![\w.>:])%s\(\s*\)' % e, '%s(%s)' % (cname, selfname), None),
-            (r'(?<![\w.>:])%s\((?!\s*%s\b)' % (e, selfname), '%s(%s, ' % (cname, selfname), None),
+            (r'(?<![\w.>:])%s\((?!\s*%s\s*[,)])' % (e, selfname), '%s(%s, ' % (cname, selfname), None),
         ]
     return rs
 
